@@ -28,8 +28,8 @@ FLOORS = {
               'kind:number-beyond': 60, 'kind:number-below': 60, 'kind:text': 20, 'kind:logical': 10,
               'kind:error': 10, 'kind:number-to-text': 30, 'kind:text-to-number': 10, 'not_implemented_cases': 30,
               'exception_cases': 30, 'other_reported_cells_checked': 100, 'tol:None': 100, 'tol:0.001': 100,
-              'outputs:chosen': 100, 'outputs:all': 100, 'prelude:noop-write': 40, 'prelude:read-input': 40, 'real_book_validations': 25,
-              'workbooks_with_iterative_calculation_on': 30},
+              'outputs:chosen': 100, 'outputs:all': 100, 'prelude:noop-write': 40, 'prelude:read-input': 40, 'prelude:list-formula-cells': 40, 'real_book_validations': 25,
+              'workbooks_with_iterative_calculation_on': 30, 'pristine_process_workbooks': 16, 'two_unevaluable_cells_cases': 30},
     'thorough': {'validate_calls': 12000, 'alterations': 8000, 'kind:logical': 300, 'kind:error': 300,
                  'not_implemented_cases': 600, 'exception_cases': 600},
 }
@@ -90,13 +90,18 @@ def reachable(meta, outputs):
     return {a for a in out if a in meta['formulas']}
 
 
-PRELUDES = ('none', 'none', 'read-input', 'noop-write')
+PRELUDES = ('none', 'none', 'read-input', 'noop-write', 'list-formula-cells')
 
 
 def prelude(comp, spec, meta, how, pick):
     """calls a driver may make before validating that leave the workbook as the file has it: reading an input,
     and writing to an input the value it already has"""
     inputs = [a for a in meta['order'] if a not in meta['formulas']]
+    if how == 'list-formula-cells':
+        # what a driver does to count or show the formulas before it validates them
+        list(comp.formula_cells())
+        list(comp.formula_cells(spec['sheets'][0][0]))
+        return
     if how == 'none' or not inputs:
         return
     addr = inputs[pick % len(inputs)]
@@ -199,13 +204,16 @@ def one_validate(ctx, spec, meta, stored, outputs, tol, altered, kind, new_value
             return
 
 
-def one_unevaluable(ctx, spec, meta, stored, cell, kind):
+def one_unevaluable(ctx, spec, meta, stored, cell, kind, second=None):
     from pycel import ExcelCompiler
     faulty = dict(spec, sheets=[[s, dict(c)] for s, c in spec['sheets']])
+    for x in [cell] + ([second] if second else []):
+        s, c = x.rsplit('!', 1)
+        body = dict(faulty['sheets'])[s][c][1:]
+        dict(faulty['sheets'])[s][c] = f'=NOSUCH({body})' if kind == 'nosuch' else f'=FAILK("v",0,{body})'
     s, c = cell.rsplit('!', 1)
-    body = dict(faulty['sheets'])[s][c][1:]
-    dict(faulty['sheets'])[s][c] = f'=NOSUCH({body})' if kind == 'nosuch' else f'=FAILK("v",0,{body})'
-    case = {'spec': faulty, 'meta': meta, 'cell': cell, 'kind': kind, 'unevaluable': True, 'stored': None}
+    case = {'spec': faulty, 'meta': meta, 'cell': cell, 'kind': kind, 'unevaluable': True, 'stored': None,
+            'second': second}
     path = os.path.join(ctx.tmpdir, 'c12u.xlsx')
     wb.write_xlsx(faulty, path, stored)
     comp = ExcelCompiler(filename=path, plugins='vp.plugins')
@@ -226,11 +234,17 @@ def one_unevaluable(ctx, spec, meta, stored, cell, kind):
     ctx.count('listed_under:' + ('not-implemented' if any(
         entry[0] == cell for entries in report.get('not-implemented', {}).values() for entry in entries)
         else 'exceptions' if cell in listed else 'nowhere'))
-    if cell not in listed:
-        elsewhere = {k: str(v)[:200] for k, v in report.items() if k != 'mismatch'}
-        ctx.violation(f'unevaluable-cell-not-reported/{kind}',
-                      f'{cell} ({dict(faulty["sheets"])[s][c]}) cannot be evaluated but is not listed under '
-                      f'{section!r}; report: {elsewhere}, mismatches {list(report.get("mismatch", {}))}', case)
+    for x in [cell] + ([second] if second else []):
+        if x not in listed:
+            elsewhere = {k: str(v)[:200] for k, v in report.items() if k != 'mismatch'}
+            which = '' if not second else ('/first-of-two' if x == cell else '/second-of-two')
+            ctx.violation(f'unevaluable-cell-not-reported/{kind}{which}',
+                          f'{x} cannot be evaluated ({cell}{" and " + second if second else ""} use '
+                          f'{"NOSUCH" if kind == "nosuch" else "a raising plugin"}) but is not listed under '
+                          f'{section!r}; report: {elsewhere}, mismatches {list(report.get("mismatch", {}))}', case)
+            break
+    if second:
+        ctx.count('two_unevaluable_cells_cases')
 
 
 def one_workbook(ctx, rng, spec, meta, n_alter):
@@ -268,11 +282,16 @@ def one_workbook(ctx, rng, spec, meta, n_alter):
     plain = [a for a in formulas if a not in wb.array_members(spec)]
     if plain:
         one_unevaluable(ctx, spec, meta, stored, rng.choice(plain), rng.choice(['nosuch', 'failk']))
+    if len(plain) >= 2 and rng.random() < 0.5:
+        # two cells that fail for the same reason (the same unknown function, the same plugin)
+        a, b = rng.sample(plain, 2)
+        one_unevaluable(ctx, spec, meta, stored, a, rng.choice(['nosuch', 'failk']), second=b)
 
 
 def run(ctx):
     rng = ctx.rng
     i = 0
+    late = []
     # the workbooks shipped with the repository with one stored result altered in the file
     realbooks.run_cases(ctx, realbooks.c12_case, realbooks.acyclic_books(), 8 if ctx.quick else 80, fraction=0.25)
     while not ctx.out_of_time():
@@ -283,6 +302,26 @@ def run(ctx):
             spec = dict(spec, calc={'iterate': True, 'count': 100, 'delta': 0.001})
             ctx.count('workbooks_with_iterative_calculation_on')
         one_workbook(ctx, rng, spec, meta, 6)
+        # (workbooks whose values depend on something resolved per workbook: the used area that A:A is clipped to)
+        if i % 5 == 1 or any(m['form'] == 'unbounded' for m in meta['formulas'].values()):
+            late.append((spec, meta))
+    pristine_stored_results(ctx, late[-8:])
+
+
+def pristine_stored_results(ctx, books):
+    """stored results computed by a process that never saw another workbook, validated in this long-lived one:
+    the report must be empty all the same (state that outlives a workbook - a cache on a class - shows here)"""
+    if not books:
+        return
+    theirs = wb.pristine_outcomes([{'spec': spec} for spec, _ in books], ctx.tmpdir)
+    for (spec, meta), vals in zip(books, theirs):
+        if vals is None:
+            raise RuntimeError('pristine child gave no result')
+        if any(o[0] == 'x' for o in vals.values()):
+            continue
+        stored = {a: wb.denorm(o[1]) for a, o in vals.items() if a in meta['formulas'] and o[1] != ('blank',)}
+        ctx.count('pristine_process_workbooks')
+        one_validate(ctx, spec, meta, stored, None, None, None, None, None, None)
 
 
 def replay(ctx, case):
@@ -301,8 +340,11 @@ def replay(ctx, case):
         section = 'not-implemented or exceptions'
         listed = [e[0] for sec in ('not-implemented', 'exceptions')
                   for entries in report.get(sec, {}).values() for e in entries]
-        if case['cell'] not in listed:
-            ctx.violation(f'unevaluable-cell-not-reported/{case["kind"]}', f'{case["cell"]} not under {section}', case)
+        for x in [case['cell']] + ([case['second']] if case.get('second') else []):
+            if x not in listed:
+                which = '' if not case.get('second') else ('/first-of-two' if x == case['cell'] else '/second-of-two')
+                ctx.violation(f'unevaluable-cell-not-reported/{case["kind"]}{which}', f'{x} not under {section}', case)
+                break
         return
     spec, meta = case['spec'], case['meta']
     truth_all = wb.fresh_values(spec)
